@@ -32,7 +32,16 @@
     inside the parameter span; `msg_values_nested`, `msg_values_nested_init`, `msg_values_nested_schedule_init`,
     `msg_values_nested_meaning`: after a successful ParseSIPMsg (one call, Init object, every chunk schedule) this
     holds for From, To and every stored Contact / P-Asserted-Identity value.
-  NOT proved: trimming of white space inside name-addr spans (the code is not consistent there: `;tag= ,x` keeps the
+  * **shortcut values = the value of their first stored header, for EVERY input** (`Sipsp.Proofs.SigCovered`):
+    `shortcut_eq_first_header`, `shortcut_values_eq(_init)(_schedule_init)`: after a successful ParseSIPMsg (any
+    history, any chunk schedule), for From, To, Call-ID, CSeq, Content-Length and Expires: if `j` is the first stored
+    header of that type then the shortcut object is parsed and `Hdrs[j].Val` EQUALS the shortcut's reported span
+    (`From.V`, `To.V`, `Callid.CallID`, `CSeq.V`, `CLen.SVal`, `Expires.SVal`) — exact equality, no weakening needed (a
+    repeated From is scanned generically and never touches the shortcut); `shortcut_parsed_of_flag` (type flag set ⇒
+    shortcut parsed, also when the array was too small to store the header); `contact_values_inside_header_line`: for
+    one Contact line the header's `Val` is the running extent and every value stored from that line lies inside it.
+  NOT proved: the message-level association "every stored Contact / PAI value lies inside the Val of a STORED header of
+  that type" (the per-line statement is proved; the containment oracle checks the rest); trimming of white space inside name-addr spans (the code is not consistent there: `;tag= ,x` keeps the
   blank inside V and the parameter span, `;tag=1 ,x` does not — the spans are still nested); strictness
   `cseq end < method`.
 -/
@@ -41,6 +50,7 @@ import Sipsp.Properties.C01
 import Sipsp.Properties.C08
 import Sipsp.Proofs.FieldsLo
 import Sipsp.Proofs.NaNest
+import Sipsp.Proofs.SigCovered
 
 namespace Sipsp.C05
 open Sipsp
@@ -290,5 +300,31 @@ theorem msg_values_nested_schedule_init : type_of% @Sipsp.parseSIPMsg_nn_schedul
     P-Asserted-Identity value `p`: URI inside `p.v`; display name (if any) inside `p.v` and before the URI; parameter
     span (if any) after the URI, inside `p.v`, ending where `p.v` ends; tag (if any) inside the parameter span -/
 theorem msg_values_nested_meaning : type_of% @Sipsp.HvNn.meaning := @Sipsp.HvNn.meaning
+
+/-! ### shortcut values equal the value of their first stored header (proved in `Sipsp.Proofs.SigCovered`) -/
+
+/-- **kind by kind**: in the object returned by a successful ParseSIPMsg call — after ANY history of the object it was
+    called on (`SvParsed`), in particular after any chunk schedule from Init with any capacities; no size bound — if a
+    header of the kind's type is stored, the shortcut object of the kind is parsed and the `val` of the FIRST stored
+    header of that type EQUALS the span the shortcut object reports -/
+theorem shortcut_eq_first_header : type_of% @Sipsp.shortcut_eq_first_header := @Sipsp.shortcut_eq_first_header
+
+/-- **[C05] the six shortcut values, spelled out**: From, To, Call-ID, CSeq, Content-Length, Expires -/
+theorem shortcut_values_eq : type_of% @Sipsp.shortcut_values_eq := @Sipsp.shortcut_values_eq
+
+/-- … after the first call on an Init object -/
+theorem shortcut_values_eq_init : type_of% @Sipsp.shortcut_values_eq_init := @Sipsp.shortcut_values_eq_init
+
+/-- … after every chunk schedule from Init that ends with OK (any list of buffers) -/
+theorem shortcut_values_eq_schedule_init : type_of% @Sipsp.shortcut_values_eq_schedule_init := @Sipsp.shortcut_values_eq_schedule_init
+
+/-- a header of the kind's type was accepted (its type flag is set — also when the array was too small to store it):
+    the shortcut object is parsed -/
+theorem shortcut_parsed_of_flag : type_of% @Sipsp.shortcut_parsed_of_flag := @Sipsp.shortcut_parsed_of_flag
+
+/-- **a Contact header line, header and values together**: for a header object of type Contact not in the middle of
+    its value list and an idle value list object, if the dispatch ends with OK then the header's `val` is the running
+    header value, the header count went up by one, and every value stored from this line lies inside `val` -/
+theorem contact_values_inside_header_line : type_of% @Sipsp.svc_contact_header := @Sipsp.svc_contact_header
 
 end Sipsp.C05
